@@ -190,7 +190,7 @@ def dispatch (content : Array UInt8) (fuel : Nat) (s : Sc) (c : Cls) (p1 : Optio
       | .star => pure { (found s .mlAnnB) with ann := true, step := .mlAnn }
       | _ => throw (errChar s "after first slash")
   | .inlAnn =>
-      if c.isBlank then pure s
+      if c.isSpace then pure s      -- only ' ' and TAB are skipped: a line break ends an empty comment (fix F-31)
       else redispatch { (found s .inlTxtB) with step := .inlTxt }
   | .mlAnn =>
       if c.isNewLine then pure (found s .newLine)
